@@ -2,12 +2,15 @@ package main
 
 import (
 	"fmt"
+	"math/rand"
 	"strings"
+	"time"
 
 	"google.golang.org/protobuf/proto"
 	"google.golang.org/protobuf/reflect/protoreflect"
 	"google.golang.org/protobuf/types/known/fieldmaskpb"
 
+	"github.com/smart-core-os/sc-golang/pkg/cmp"
 	"github.com/smart-core-os/sc-golang/pkg/resource"
 	"github.com/smart-core-os/sc-golang/verifharness/cmd/c05/mt"
 	"github.com/smart-core-os/sc-golang/verifharness/lib"
@@ -27,7 +30,8 @@ type wopt struct {
 	Mask mt.Mask `json:"mask"`
 }
 
-// ropt is one writable-fields option of resource construction: writable-fields | writable-paths.
+// ropt is one option of resource construction: writable-fields | writable-paths, or one of the
+// options that are NOT masks, "other:<name>" (see otherOption): clock, equivalence, rng, id interceptor.
 type ropt struct {
 	Kind string  `json:"kind"`
 	Mask mt.Mask `json:"mask"`
@@ -112,11 +116,7 @@ func encList(xs []string) string {
 func (s scase) modelLine() string {
 	var ro []string
 	for _, o := range s.ROpts {
-		if o.Kind == "writable-paths" {
-			ro = append(ro, "P"+o.Mask.Enc())
-		} else {
-			ro = append(ro, "F"+o.Mask.Enc())
-		}
+		ro = append(ro, o.enc())
 	}
 	var steps []string
 	for _, st := range s.Steps {
@@ -170,11 +170,163 @@ scan:
 }
 
 // specW: the last writable-fields construction option wins; none = everything writable.
-func (s scase) specW() mt.Mask {
-	if len(s.ROpts) == 0 {
-		return mt.NilMask()
+func (s scase) specW() mt.Mask { return specWOf(s.ROpts) }
+
+func specWOf(ropts []ropt) mt.Mask {
+	if o := lastWritable(ropts); o != nil {
+		return o.Mask
 	}
-	return s.ROpts[len(s.ROpts)-1].Mask
+	return mt.NilMask()
+}
+
+// lastWritable: the last writable-fields option of the list (options that are not masks do not count).
+func lastWritable(ropts []ropt) *ropt {
+	for i := len(ropts) - 1; i >= 0; i-- {
+		if !ropts[i].other() {
+			return &ropts[i]
+		}
+	}
+	return nil
+}
+
+func (o ropt) other() bool { return strings.HasPrefix(o.Kind, "other:") }
+
+func (o ropt) enc() string {
+	switch {
+	case o.other():
+		return "X" + strings.ReplaceAll(strings.TrimPrefix(o.Kind, "other:"), "-", "")
+	case o.Kind == "writable-paths":
+		return "P" + o.Mask.Enc()
+	}
+	return "F" + o.Mask.Enc()
+}
+
+type fixedClock struct{ t time.Time }
+
+func (c fixedClock) Now() time.Time { return c.t }
+
+type steppingClock struct{ t *time.Time }
+
+func (c steppingClock) Now() time.Time {
+	*c.t = c.t.Add(time.Second)
+	return *c.t
+}
+
+// otherNames: the resource options that are not masks, in the shapes that differ in what they could
+// make a write do: clocks (constant, advancing), equivalences (equal; approximate numbers with a
+// margin wider than any generated value; one that relates ALL messages; one that looks at the first
+// field only; one that relates none), a seeded RNG, an id interceptor (collections address the
+// tracked item as "X", stored under "x").
+var otherNames = []string{"clock-fixed", "clock-stepping", "equiv-no-duplicates", "equiv-float-approx",
+	"equiv-always", "equiv-first-field", "equiv-never", "rng", "id-lower"}
+
+func otherOption(name string, md protoreflect.MessageDescriptor) resource.Option {
+	switch name {
+	case "clock-fixed":
+		return resource.WithClock(fixedClock{time.Unix(1700000000, 0)})
+	case "clock-stepping":
+		t := time.Unix(1700000000, 0)
+		return resource.WithClock(steppingClock{&t})
+	case "equiv-no-duplicates":
+		return resource.WithNoDuplicates()
+	case "equiv-float-approx":
+		return resource.WithMessageEquivalence(cmp.Equal(cmp.FloatValueApprox(0, 1e300)))
+	case "equiv-always":
+		return resource.WithEquivalence(resource.ComparerFunc(func(_, _ proto.Message) bool { return true }))
+	case "equiv-never":
+		return resource.WithEquivalence(resource.ComparerFunc(func(_, _ proto.Message) bool { return false }))
+	case "equiv-first-field":
+		fd := md.Fields().Get(0)
+		return resource.WithEquivalence(resource.ComparerFunc(func(x, y proto.Message) bool {
+			if x == nil || y == nil {
+				return x == nil && y == nil
+			}
+			return mt.GetText(x.ProtoReflect(), []string{string(fd.Name())}) == mt.GetText(y.ProtoReflect(), []string{string(fd.Name())})
+		}))
+	case "rng":
+		return resource.WithRNG(rand.New(rand.NewSource(1)))
+	case "id-lower":
+		return resource.WithIDInterceptor(strings.ToLower)
+	}
+	panic("other option " + name)
+}
+
+// built is one resource under test with the item the harness tracks.
+type built struct {
+	v   *resource.Value
+	col *resource.Collection
+	// wfm: the writable mask the harness handed over (nil when the resource built its own)
+	wfm *fieldmaskpb.FieldMask
+	// id under which the harness addresses the tracked item ("X" behind a lower-casing id interceptor)
+	id string
+	r  root
+}
+
+func (b built) tracked() proto.Message {
+	var m proto.Message
+	if b.v != nil {
+		m = b.v.Get()
+	} else {
+		m, _ = b.col.Get(b.id)
+	}
+	if m == nil {
+		m = b.r.New()
+	}
+	return m
+}
+
+func (b built) write(src proto.Message, opts ...resource.WriteOption) (proto.Message, error) {
+	if b.v != nil {
+		return b.v.Set(src, opts...)
+	}
+	return b.col.Update(b.id, src, opts...)
+}
+
+// buildResource constructs the Value / Collection of a case from its construction options.
+func buildResource(r root, site, route string, ropts []ropt, dst proto.Message) (b built, configPanic string) {
+	b.r, b.id = r, "x"
+	var opts []resource.Option
+	panicked, msg := lib.Catch(func() {
+		for _, o := range ropts {
+			switch {
+			case o.other():
+				name := strings.TrimPrefix(o.Kind, "other:")
+				if name == "id-lower" {
+					b.id = "X"
+				}
+				opts = append(opts, otherOption(name, r.MD()))
+			case o.Kind == "writable-paths":
+				opts = append(opts, resource.WithWritablePaths(r.New(), append([]string(nil), o.Mask.Paths...)...))
+			default:
+				b.wfm = wcase{W: o.Mask, Route: route}.writableMask()
+				if o.Mask.Nil {
+					b.wfm = nil
+				}
+				opts = append(opts, resource.WithWritableFields(b.wfm))
+			}
+		}
+	})
+	if panicked {
+		return b, msg
+	}
+	if o := lastWritable(ropts); o != nil && o.Kind == "writable-paths" {
+		b.wfm = nil // the resource owns the mask it built
+	}
+	if site == "value" {
+		if dst != nil {
+			opts = append(opts, resource.WithInitialValue(dst))
+		}
+		b.v = resource.NewValue(opts...)
+	} else {
+		b.col = resource.NewCollection(opts...)
+		if dst == nil {
+			dst = r.New()
+		}
+		if _, err := b.col.Add(b.id, proto.Clone(dst), resource.WithAllFieldsWritable()); err != nil {
+			panic(err)
+		}
+	}
+	return b, ""
 }
 
 type sout struct {
@@ -198,61 +350,16 @@ func (o sout) text() string {
 func (s scase) runCode() sout {
 	r := rootByName(s.Root)
 	var out sout
-	var ropts []resource.Option
-	var wfm *fieldmaskpb.FieldMask
-	panicked, msg := lib.Catch(func() {
-		for _, o := range s.ROpts {
-			switch o.Kind {
-			case "writable-paths":
-				ropts = append(ropts, resource.WithWritablePaths(r.New(), append([]string(nil), o.Mask.Paths...)...))
-			default:
-				wfm = wcase{W: o.Mask, Route: s.Route}.writableMask()
-				if o.Mask.Nil {
-					wfm = nil
-				}
-				ropts = append(ropts, resource.WithWritableFields(wfm))
-			}
-		}
-	})
-	if panicked {
-		out.ConfigPanic = msg
-		return out
-	}
-	if len(s.ROpts) > 0 && s.ROpts[len(s.ROpts)-1].Kind == "writable-paths" {
-		wfm = nil // the resource owns the mask it built
-	}
 	dst, err := mt.DecodeMsg(s.Dst, r.New())
 	if err != nil {
 		panic(err)
 	}
-	var v *resource.Value
-	var col *resource.Collection
-	if s.Site == "value" {
-		if dst != nil {
-			ropts = append(ropts, resource.WithInitialValue(dst))
-		}
-		v = resource.NewValue(ropts...)
-	} else {
-		col = resource.NewCollection(ropts...)
-		if dst == nil {
-			dst = r.New()
-		}
-		if _, err := col.Add("x", proto.Clone(dst), resource.WithAllFieldsWritable()); err != nil {
-			panic(err)
-		}
+	b, cp := buildResource(r, s.Site, s.Route, s.ROpts, dst)
+	if cp != "" {
+		out.ConfigPanic = cp
+		return out
 	}
-	tracked := func() proto.Message {
-		var m proto.Message
-		if v != nil {
-			m = v.Get()
-		} else {
-			m, _ = col.Get("x")
-		}
-		if m == nil {
-			m = r.New()
-		}
-		return m
-	}
+	col, wfm, tracked := b.col, b.wfm, b.tracked
 	for i, st := range s.Steps {
 		src, err := mt.DecodeMsg(st.Src, r.New())
 		if err != nil {
@@ -266,18 +373,19 @@ func (s scase) runCode() sout {
 		before := tracked()
 		o := wout{Written: proto.Clone(src), Before: before, SrcAfter: src}
 		id := fmt.Sprintf("n%d", i)
+		if b.id == "X" {
+			id = fmt.Sprintf("N%d", i)
+		}
 		if st.Fresh {
 			o.Before = r.New()
 		}
 		var werr error
+		var ret proto.Message
 		panicked, msg := lib.Catch(func() {
-			switch {
-			case v != nil:
-				_, werr = v.Set(src, opts...)
-			case st.Fresh:
-				_, werr = col.Add(id, src, opts...)
-			default:
-				_, werr = col.Update("x", src, opts...)
+			if st.Fresh {
+				ret, werr = col.Add(id, src, opts...)
+			} else {
+				ret, werr = b.write(src, opts...)
 			}
 		})
 		if panicked {
@@ -287,6 +395,7 @@ func (s scase) runCode() sout {
 			return out
 		}
 		o.Err = codeName(werr)
+		o.Returned = ret
 		after := tracked()
 		if st.Fresh {
 			item, ok := col.Get(id)
@@ -543,6 +652,7 @@ func genSeq(g *mt.Gen, site string) scase {
 		s.ROpts = append([]ropt{{Kind: "writable-fields", Mask: g.MaskFrom(focus, mt.PathOpts{})}}, s.ROpts...)
 	}
 	s.Route = []string{"literal", "union", "append", "unmarshal"}[g.R.Intn(4)]
+	s.ROpts = withOthers(g, site, s.ROpts)
 	W := s.specW()
 	n := 2 + g.R.Intn(3)
 	for i := 0; i < n; i++ {
@@ -568,6 +678,29 @@ func (s scase) nontrivial() bool {
 	return len(s.ROpts) > 0
 }
 
+// withOthers inserts resource options that are not masks into a list of construction options, at
+// generated positions (before, between and after the writable-fields options).
+func withOthers(g *mt.Gen, site string, ropts []ropt) []ropt {
+	n := 0
+	switch x := g.R.Intn(10); {
+	case x < 5:
+		return ropts
+	case x < 8:
+		n = 1
+	default:
+		n = 2 + g.R.Intn(2)
+	}
+	for i := 0; i < n; i++ {
+		name := otherNames[g.R.Intn(len(otherNames))]
+		if name == "id-lower" && site != "collection" {
+			name = "equiv-always"
+		}
+		k := g.R.Intn(len(ropts) + 1)
+		ropts = append(ropts[:k:k], append([]ropt{{Kind: "other:" + name, Mask: mt.NilMask()}}, ropts[k:]...)...)
+	}
+	return ropts
+}
+
 func runSeqCases(cases []scase, tie *lib.Tie, mon *lib.Monitor, drv *lib.Driver) {
 	var lines []string
 	for _, s := range cases {
@@ -585,6 +718,9 @@ func runSeqCases(cases []scase, tie *lib.Tie, mon *lib.Monitor, drv *lib.Driver)
 		tie.Count(fmt.Sprintf("steps:%d", len(s.Steps)))
 		if out.ConfigPanic != "" {
 			tie.Count("outcome:config-panic")
+		}
+		for _, o := range s.ROpts {
+			tie.Count("resource-option:" + o.Kind)
 		}
 		bare, barePriv := 0, 0
 		for j, st := range s.Steps {
